@@ -29,3 +29,6 @@ OBLIGATIONS = FT.fault_obligations('c08', 'C08') + [
 from harness.corace import OB_CVS, OB_DEPS, OB_RACE, cancel_vs_submission, coordinator_race, task_dependencies  # noqa: E402
 OBLIGATIONS += [dict(OB_CVS, id='C08.2'), dict(OB_RACE, id='C08.2r', cases=[(0, 2, True), (1, 2, True), (2, 2, False), (0, 2, False)])]
 OBLIGATIONS += [dict(OB_DEPS, id='C08.deps', cases=[(False, False, False), (True, False, False), (False, False, True)])]
+
+from harness.nsrun import ns_fault_obligations, nsfaulted  # noqa: E402
+OBLIGATIONS += ns_fault_obligations('c08', 'C08', ['up-seek', 'down-path'])
